@@ -368,7 +368,7 @@ func inlineCall(F *ssa.Function, call *ssa.Call, g *ssa.Function) {
 						touchedByInl = true
 					}
 				}
-				if touchedByInl && splitReturn(F, b) {
+				if touchedByInl && (splitReturn(F, b) || splitSharedReturn(F, b)) {
 					again = true
 					break
 				}
@@ -1460,6 +1460,65 @@ func splitReturn(F *ssa.Function, K *ssa.BasicBlock) bool {
 		}
 	}
 	F.Blocks = out
+	for i, b := range F.Blocks {
+		b.Index = i
+	}
+	delete(domCache, F)
+	return true
+}
+
+// splitSharedReturn: a block that is nothing but a return (`if inRoot(…) ||
+// allowed(…) { return true, nil }` once the helpers are in place) and is
+// reached over several edges becomes one return per edge, as the same code
+// written with one `return` per test comes out of go/ssa.
+func splitSharedReturn(F *ssa.Function, K *ssa.BasicBlock) bool {
+	if len(K.Instrs) != 1 || len(K.Preds) < 2 {
+		return false
+	}
+	ret, ok := K.Instrs[0].(*ssa.Return)
+	if !ok {
+		return false
+	}
+	for _, P := range K.Preds {
+		if P == K {
+			return false
+		}
+	}
+	var ops [16]*ssa.Value
+	first := true
+	preds := append([]*ssa.BasicBlock(nil), K.Preds...)
+	K.Preds = nil
+	seen := map[*ssa.BasicBlock]bool{}
+	for _, P := range preds {
+		if seen[P] {
+			continue
+		}
+		seen[P] = true
+		for i, S := range P.Succs {
+			if S != K {
+				continue
+			}
+			if first {
+				first = false
+				K.Preds = append(K.Preds, P)
+				continue
+			}
+			N := &ssa.BasicBlock{Comment: K.Comment + ".ret"}
+			setUnexported(N, "parent", F)
+			nr := &ssa.Return{Results: append([]ssa.Value(nil), ret.Results...)}
+			setUnexported(nr, "block", N)
+			setUnexported(nr, "pos", ret.Pos())
+			for _, op := range nr.Operands(ops[:0]) {
+				if *op != nil {
+					addReferrer(*op, nr)
+				}
+			}
+			N.Instrs = []ssa.Instruction{nr}
+			N.Preds = []*ssa.BasicBlock{P}
+			P.Succs[i] = N
+			F.Blocks = append(F.Blocks, N)
+		}
+	}
 	for i, b := range F.Blocks {
 		b.Index = i
 	}
